@@ -15,6 +15,15 @@ class Divergence(Exception):
     pass
 
 
+def describe_exception(e):
+    """an exception as an observation: no memory addresses, no scratch paths, no traceback text"""
+    import re
+    if hasattr(e, 'fields_stack'):
+        msg = getattr(e, 'original_error_message', '')
+        return ('exc', type(e).__name__, tuple(tuple(x) for x in e.fields_stack), re.sub(r'0x[0-9a-fA-F]+', '0x', str(msg))[:160])
+    return ('exc', type(e).__name__, re.sub(r'0x[0-9a-fA-F]+|/[^ \'"]*', '', str(e))[:160])
+
+
 class Execution:
     """one run of the thread bodies under a choice prefix (then choice 0 = keep running / lowest id)"""
 
@@ -127,7 +136,7 @@ class Execution:
             try:
                 self.results[tid] = ('ok', self.bodies[tid]())
             except BaseException as e:      # the body's own failures are observations
-                self.results[tid] = ('exc', type(e).__name__, str(e)[:200])
+                self.results[tid] = describe_exception(e)
         finally:
             sys.settrace(None)
             self.finished[tid] = True
